@@ -3,12 +3,11 @@ C16 — property theorems for the model of g12s.c (G12s.lean, GOST R 34.10-2012)
 `G12Laws C` (LawsSig.lean).  `beNat` is the number of a big-endian octet string (hash, r, s), `leNat`
 of a little-endian one (private key, coordinates).
 
-NOTE on `g12_sign_complete_partial`: g12sSign does not repeat the draw when s = 0 (step 5 of the
-standard: "if s = 0 go back to step 3"), g12sVerify rejects s = 0.  The full completeness statement is
-therefore FALSE for the code (and the model); the theorems below state exactly what holds:
-a returned signature verifies if and only if its s-part is non-zero.
+The model contains the REPAIRED behaviour of g12sSign (docs/C16.fix-6.diff): the draw is repeated when
+s = 0 (step 5 of the standard); without it a returned signature with s = 0 is rejected by g12sVerify.
 -/
 import Bee2V.C16.LemmasSig3
+import Bee2V.C16.ToySig
 namespace Bee2V.C16
 open Sig
 variable {G : Type} [AddCommGroup G] {C : G12 G}
@@ -45,37 +44,30 @@ theorem g12_hashE_congr (C : G12 G) {H H' : Bytes} (h : beNat H % C.q = beNat H'
 theorem g12_hashE_range (L : G12Laws C) (H : Bytes) : 0 < C.hashE H ∧ C.hashE H < C.q :=
   g_hashE_range C L.q_prime.one_lt H
 
-/- FULL statement (false for g12s.c, see the note at the top):
-   Hb.length = C.mo → priv.length = C.mo → C.sign fuel Hb priv tape = some (.ok, sig, used) →
-   C.xy (leNat priv • C.base) = some Q → C.verify Hb sig (C.encXY Q) = .ok
-   Missing in the code: the test s = 0 ⇒ goto gen_k. -/
-/-- g12sSign against g12sVerify: every returned signature whose s-part is non-zero — for EVERY hash
-value (0 with the e = 1 rule, ≥ q, multiples of q), every tape including the rounds with r = 0 and the
+/-- g12sSign against g12sVerify: every returned signature — for EVERY hash value (0 with the e = 1
+rule, ≥ q, multiples of q), every tape including the rounds repeated because r = 0 or s = 0 and the
 draws rejected by zzRandNZMod — passes g12sVerify under the public key dP -/
-theorem g12_sign_complete_partial (L : G12Laws C) {Hb priv tape sig : Bytes} {fuel used : Nat}
+theorem g12_sign_complete (L : G12Laws C) {Hb priv tape sig : Bytes} {fuel used : Nat}
     {Q : Nat × Nat} (hs : C.sign fuel Hb priv tape = some (.ok, sig, used))
-    (hQ : C.xy (leNat priv • C.base) = some Q) (hs0 : beNat (sig.drop C.mo) ≠ 0) :
+    (hQ : C.xy (leNat priv • C.base) = some Q) :
     C.verify Hb sig (C.encXY Q) = .ok := by
-  obtain ⟨_, _, k, x, y, hxy, hr0, hsig, hb⟩ := g_sign_shape L hs
-  rw [hb] at hs0
+  obtain ⟨_, _, k, x, y, hxy, hr0, hs0, hsig, _⟩ := g_sign_shape L hs
   rw [hsig]
   exact g_verify_sig L hxy hr0 hs0 (g_loadPub_encXY L hQ)
 
-/-- … and a returned signature verifies ONLY IF its s-part is non-zero: when s = (r d + k e) mod q = 0,
-g12sSign returns ERR_OK with a signature that g12sVerify rejects (ERR_BAD_SIG) -/
-theorem g12_sign_verify_iff (L : G12Laws C) {Hb priv tape sig : Bytes} {fuel used : Nat}
-    {Q : Nat × Nat} (hs : C.sign fuel Hb priv tape = some (.ok, sig, used))
-    (hQ : C.xy (leNat priv • C.base) = some Q) :
-    (C.verify Hb sig (C.encXY Q) = .ok ↔ beNat (sig.drop C.mo) ≠ 0) ∧
-    (beNat (sig.drop C.mo) = 0 → C.verify Hb sig (C.encXY Q) = .badSig) := by
-  have hz : beNat (sig.drop C.mo) = 0 → C.verify Hb sig (C.encXY Q) = .badSig := by
-    intro h0
-    unfold G12.verify
-    rw [g_loadPub_encXY L hQ]
-    simp only [h0, true_or, if_true]
-  refine ⟨⟨fun hv h0 => ?_, g12_sign_complete_partial L hs hQ⟩, hz⟩
-  rw [hz h0] at hv
-  cases hv
+/-- both parts of every returned signature are in [1, q-1] (g12sSign repeats the draw when r = 0 or
+s = 0) -/
+theorem g12_sign_range (L : G12Laws C) {Hb priv tape sig : Bytes} {fuel used : Nat}
+    (hs : C.sign fuel Hb priv tape = some (.ok, sig, used)) :
+    sig.length = 2 * C.mo ∧ 0 < beNat (sig.take C.mo) ∧ beNat (sig.take C.mo) < C.q ∧
+      0 < beNat (sig.drop C.mo) ∧ beNat (sig.drop C.mo) < C.q := by
+  have hq := g_q_pos L
+  obtain ⟨_, _, k, x, y, _, hr0, hs0, hsig, hb⟩ := g_sign_shape L hs
+  rw [hb]
+  rw [hsig, take_natBE_append, beNat_natBE, Nat.mod_eq_of_lt (g_lt_pow L (Nat.mod_lt _ hq))]
+  refine ⟨?_, by omega, Nat.mod_lt _ hq, by omega, Nat.mod_lt _ hq⟩
+  rw [List.length_append, natBE_length, natBE_length]
+  omega
 
 /-- the acceptance set of g12sVerify, exactly: public key on the curve, 0 < r, s < q, and with
 v = e⁻¹ mod q: `R = (s v mod q) P + (-(v r) mod q) Q ≠ O` and `x_R mod q = r` -/
@@ -132,5 +124,38 @@ theorem g12_verify_exact (L : G12Laws C) {Hb sig pub : Bytes} :
             rw [hR] at hxy
             cases hxy
             exact absurd hx.symm hh
+
+/-! ### non-vacuity: the hypotheses of the theorems above are satisfiable together (ToySig.lean:
+`toyG12` over (ZMod 65521, +), l = 16) -/
+section examples
+open ToySig
+set_option maxRecDepth 4000
+
+example : ∃ C : G12 (ZMod 65521), G12Laws C := ⟨toyG12, toyG12Laws⟩
+
+/-- the draws 0 and 65521 = q are rejected, 9 is accepted -/
+example := g12_keygen_valid toyG12Laws (tape := [0, 0, 241, 255, 9, 0]) (kp := [9, 0, 9, 0, 9, 0])
+  (used := 6) (by decide)
+
+/-- hash value 65521 = q (e = 0 ⇒ e = 1), a rejected draw, then k = 7: signs and verifies -/
+example : toyG12.sign 3 [255, 241] [5, 0] [0, 0, 7, 0] = some (.ok, [0, 7, 0, 42], 4) ∧
+    toyG12.verify [255, 241] [0, 7, 0, 42] (toyG12.encXY (5, 5)) = .ok :=
+  have hs : toyG12.sign 3 [255, 241] [5, 0] [0, 0, 7, 0] = some (.ok, [0, 7, 0, 42], 4) := by decide
+  ⟨hs, g12_sign_complete toyG12Laws hs (by decide)⟩
+
+example := g12_sign_range toyG12Laws (Hb := [255, 241]) (priv := [5, 0]) (tape := [0, 0, 7, 0])
+  (sig := [0, 7, 0, 42]) (fuel := 3) (used := 4) (by decide)
+
+/-- d + e = q: every one-time key gives s = 0, every round is repeated until the generator gives up -/
+example : toyG12.sign 70 [255, 236] [5, 0] [7, 0, 8, 0] = some (.badRng, [], 134) := by decide
+
+example := g12_verify_exact toyG12Laws (Hb := [255, 241]) (sig := [0, 7, 0, 42]) (pub := [5, 0, 5, 0])
+
+/-- the hash values 0 and q give the same e -/
+example := g12_hashE_congr toyG12 (H := [0, 0]) (H' := [255, 241]) (by decide)
+
+example := g12_hashE_range toyG12Laws [0, 0]
+
+end examples
 
 end Bee2V.C16
